@@ -176,7 +176,9 @@ def anytime(
                     fast_lower_bound = max(current_bin_sum + binner.valueof(next_item), current_sums[-1])
                 elif objective==obj.MaximizeSmallestSum:
                     # An adaptation of the above heuristic to maximizing the smallest sum.
-                    if bin_index==0:
+                    if bin_index==0 and numbins==1:
+                        new_smallest_sum = current_sums[0]+binner.valueof(next_item)
+                    elif bin_index==0:
                         new_smallest_sum = min(current_sums[0]+binner.valueof(next_item), current_sums[1])
                     else:
                         new_smallest_sum = current_sums[0]
